@@ -3,6 +3,7 @@
 //! it hangs or dies.
 use crate::scen::{config, listing, SVC};
 use iceoryx2::node::NodeState;
+use iceoryx2::port::update_connections::UpdateConnections;
 use iceoryx2::prelude::*;
 use std::io::Write;
 
@@ -50,6 +51,24 @@ fn usability(cfg: &Config, scenario: &str) -> String {
                         }
                         for i in 0..3u64 {
                             ok &= s.receive().ok().flatten().map(|x| *x) == Some(1000 + i);
+                        }
+                        if ok { "ok".into() } else { "traffic_failed".into() }
+                    }
+                    (p, s) => format!("port_create_failed:{:?}/{:?}", p.err(), s.err()),
+                }
+            }
+            Err(e) => format!("service_create_failed:{:?}", e),
+        },
+        "pubsub_dyn" => match node.service_builder(&name).publish_subscribe::<[u8]>().history_size(0).subscriber_max_buffer_size(5).create() {
+            Ok(svc) => {
+                let p = svc.publisher_builder().initial_max_slice_len(4).allocation_strategy(AllocationStrategy::BestFit).create();
+                let s = svc.subscriber_builder().create();
+                match (p, s) {
+                    (Ok(p), Ok(s)) => {
+                        let mut ok = true;
+                        for (len, v) in [(4usize, 9u8), (700, 8)] {
+                            ok &= p.loan_slice_uninit(len).map(|l| l.write_from_fn(|_| v).send() == Ok(1)).unwrap_or(false);
+                            ok &= s.receive().ok().flatten().map(|x| x.len() == len && x.iter().all(|b| *b == v)) == Some(true);
                         }
                         if ok { "ok".into() } else { "traffic_failed".into() }
                     }
@@ -135,7 +154,7 @@ pub fn solo(scenario: &str, root: &str, prefix: &str) {
         say("residue_file", f);
     }
     let exists = match scenario {
-        "pubsub" => format!("{:?}", ipc::Service::does_exist(&SVC.try_into().unwrap(), &cfg, MessagingPattern::PublishSubscribe)),
+        "pubsub" | "pubsub_dyn" => format!("{:?}", ipc::Service::does_exist(&SVC.try_into().unwrap(), &cfg, MessagingPattern::PublishSubscribe)),
         "event" => format!("{:?}", ipc::Service::does_exist(&SVC.try_into().unwrap(), &cfg, MessagingPattern::Event)),
         "reqres" => format!("{:?}", ipc::Service::does_exist(&SVC.try_into().unwrap(), &cfg, MessagingPattern::RequestResponse)),
         "blackboard" => format!("{:?}", ipc::Service::does_exist(&SVC.try_into().unwrap(), &cfg, MessagingPattern::Blackboard)),
@@ -149,4 +168,273 @@ pub fn solo(scenario: &str, root: &str, prefix: &str) {
         say("residue_final_file", f);
     }
     say("step", "done");
+}
+
+/// first cleaner of the second-crash trials: runs under the stepper, the cleanup itself is the scenario
+pub fn cleaner1(root: &str, prefix: &str) {
+    let cfg = config(root, prefix);
+    crate::scen::marker();
+    let (states, cleanup) = list_states(&cfg);
+    crate::scen::marker();
+    say("list1", &states);
+    say("cleanup", cleanup.join(";"));
+}
+
+/// Holder: a second participant of the service that survives the victim. It creates the service (with the
+/// settings the victim's open_or_create asks for) and its own ports, reports `ready`, and on `check`
+/// performs the post-mortem: cleanup, then its own ports must still work with each other and with new peers.
+pub fn holder(scenario: &str, root: &str, prefix: &str) {
+    let cfg = config(root, prefix);
+    let name: ServiceName = SVC.try_into().unwrap();
+    let node = NodeBuilder::new().config(&cfg).create::<ipc::Service>().unwrap();
+    let stdin = std::io::stdin();
+    let wait_cmd = || {
+        let mut l = String::new();
+        let _ = stdin.read_line(&mut l);
+        l.trim().to_string()
+    };
+    let post_mortem = |cfg: &Config| {
+        let (states, cleanup) = list_states(cfg);
+        say("list1", &states);
+        say("cleanup", cleanup.join(";"));
+        let (states2, cleanup2) = list_states(cfg);
+        say("list2", &states2);
+        say("cleanup2", cleanup2.join(";"));
+    };
+    match scenario {
+        "pubsub_shared" => {
+            let svc = node.service_builder(&name).publish_subscribe::<u64>().history_size(1).subscriber_max_buffer_size(2).max_publishers(2).max_subscribers(2).max_nodes(4).open_or_create().unwrap();
+            let hp = svc.publisher_builder().create().unwrap();
+            let hs = svc.subscriber_builder().create().unwrap();
+            // establish the holder's own (lazily created) connection before the reference listing is taken
+            let _ = hp.send_copy(8);
+            while let Ok(Some(_)) = hs.receive() {}
+            say("step", "ready");
+            if wait_cmd() == "check" {
+                post_mortem(&cfg);
+                // whatever the victim delivered before it died must be intact
+                let mut foreign = Vec::new();
+                while let Ok(Some(x)) = hs.receive() {
+                    foreign.push(*x);
+                }
+                say("foreign_data", if foreign.iter().all(|v| *v == 7 || *v == 8) { "ok".to_string() } else { format!("corrupted:{:?}", foreign) });
+                let mut u = Vec::new();
+                if hp.send_copy(500).is_err() || hs.receive().ok().flatten().map(|x| *x) != Some(500) {
+                    u.push("own_ports_broken");
+                }
+                // new peers from a second node: only possible if the dead ports' slots were released
+                {
+                let node2 = NodeBuilder::new().config(&cfg).create::<ipc::Service>().unwrap();
+                match node2.service_builder(&name).publish_subscribe::<u64>().open() {
+                    Ok(svc2) => match (svc2.publisher_builder().create(), svc2.subscriber_builder().create()) {
+                        (Ok(p2), Ok(s2)) => {
+                            // the late joiner gets the history of both publishers with their next connection update
+                            let _ = hp.update_connections();
+                            let _ = p2.update_connections();
+                            while let Ok(Some(_)) = s2.receive() {}
+                            while let Ok(Some(_)) = hs.receive() {}
+                            if p2.send_copy(600) != Ok(2) || hs.receive().ok().flatten().map(|x| *x) != Some(600) || s2.receive().ok().flatten().map(|x| *x) != Some(600) {
+                                u.push("new_publisher_not_received");
+                            }
+                            if hp.send_copy(700) != Ok(2) || s2.receive().ok().flatten().map(|x| *x) != Some(700) || hs.receive().ok().flatten().map(|x| *x) != Some(700) {
+                                u.push("new_subscriber_not_served");
+                            }
+                        }
+                        (p, s) => {
+                            say("new_peer_error", format!("{:?}/{:?}", p.err(), s.err()));
+                            u.push("new_peer_ports_refused")
+                        }
+                    },
+                    Err(e) => {
+                        say("new_peer_error", format!("{:?}", e));
+                        u.push("new_peer_open_failed")
+                    }
+                }
+                }
+                // connections to the departed new peers are released by the next connection update
+                let _ = hs.update_connections();
+                let _ = hp.update_connections();
+                say("usability", if u.is_empty() { "ok".to_string() } else { u.join("+") });
+                say("step", "checked");
+                wait_cmd();
+            }
+            drop(hs);
+            drop(hp);
+            drop(svc);
+        }
+        "reqres_shared" => {
+            let svc = node.service_builder(&name).request_response::<u64, u64>().max_clients(2).max_servers(2).max_nodes(4).open_or_create().unwrap();
+            let hsrv = svc.server_builder().create().unwrap();
+            let hcl = svc.client_builder().create().unwrap();
+            let round = |cl: &iceoryx2::port::client::Client<ipc::Service, u64, (), u64, ()>, servers: &[&iceoryx2::port::server::Server<ipc::Service, u64, (), u64, ()>], v: u64| -> bool {
+                let p = match cl.send_copy(v) {
+                    Ok(p) => p,
+                    Err(_) => return false,
+                };
+                let mut ok = true;
+                for (i, s) in servers.iter().enumerate() {
+                    match s.receive() {
+                        Ok(Some(a)) if *a == v => ok &= a.send_copy(v + 1 + i as u64).is_ok(),
+                        _ => ok = false,
+                    }
+                }
+                let mut got = Vec::new();
+                while let Ok(Some(r)) = p.receive() {
+                    got.push(*r);
+                }
+                got.sort();
+                ok && got == (0..servers.len()).map(|i| v + 1 + i as u64).collect::<Vec<_>>()
+            };
+            let _ = round(&hcl, &[&hsrv], 2);
+            say("step", "ready");
+            if wait_cmd() == "check" {
+                post_mortem(&cfg);
+                let mut foreign = Vec::new();
+                while let Ok(Some(a)) = hsrv.receive() {
+                    foreign.push(*a);
+                    let _ = a.send_copy(12); // the requester is dead: any result, but no crash
+                }
+                say("foreign_data", if foreign.iter().all(|v| *v == 11) { "ok".to_string() } else { format!("corrupted:{:?}", foreign) });
+                let mut u = Vec::new();
+                if !round(&hcl, &[&hsrv], 20) {
+                    u.push("own_ports_broken");
+                }
+                {
+                let node2 = NodeBuilder::new().config(&cfg).create::<ipc::Service>().unwrap();
+                match node2.service_builder(&name).request_response::<u64, u64>().open() {
+                    Ok(svc2) => match (svc2.server_builder().create(), svc2.client_builder().create()) {
+                        (Ok(s2), Ok(c2)) => {
+                            if !round(&c2, &[&hsrv, &s2], 30) {
+                                u.push("new_client_not_served");
+                            }
+                            if !round(&hcl, &[&hsrv, &s2], 40) {
+                                u.push("new_server_not_reached");
+                            }
+                        }
+                        (s, c) => {
+                            say("new_peer_error", format!("{:?}/{:?}", s.err(), c.err()));
+                            u.push("new_peer_ports_refused")
+                        }
+                    },
+                    Err(e) => {
+                        say("new_peer_error", format!("{:?}", e));
+                        u.push("new_peer_open_failed")
+                    }
+                }
+                }
+                // connections to the departed new peers are released by the next connection update
+                let _ = hsrv.update_connections();
+                let _ = hcl.update_connections();
+                say("usability", if u.is_empty() { "ok".to_string() } else { u.join("+") });
+                say("step", "checked");
+                wait_cmd();
+            }
+            drop(hcl);
+            drop(hsrv);
+            drop(svc);
+        }
+        "event_shared" => {
+            let svc = node.service_builder(&name).event().max_nodes(4).max_notifiers(2).max_listeners(2).open_or_create().unwrap();
+            let hn = svc.notifier_builder().create().unwrap();
+            let hl = svc.listener_builder().create().unwrap();
+            say("step", "ready");
+            if wait_cmd() == "check" {
+                post_mortem(&cfg);
+                let mut foreign = Vec::new();
+                let _ = hl.try_wait(|a| foreign.push(a.id.as_value()));
+                say("foreign_data", if foreign.iter().all(|v| *v == 3) { "ok".to_string() } else { format!("corrupted:{:?}", foreign) });
+                let mut u = Vec::new();
+                let ids = |l: &iceoryx2::port::listener::Listener<ipc::Service>| {
+                    let mut g = Vec::new();
+                    let _ = l.try_wait(|a| g.push(a.id.as_value()));
+                    g
+                };
+                if hn.notify_with_custom_event_id(EventId::new(5)).is_err() || ids(&hl) != vec![5] {
+                    u.push("own_ports_broken");
+                }
+                {
+                let node2 = NodeBuilder::new().config(&cfg).create::<ipc::Service>().unwrap();
+                match node2.service_builder(&name).event().open() {
+                    Ok(svc2) => match (svc2.notifier_builder().create(), svc2.listener_builder().create()) {
+                        (Ok(n2), Ok(l2)) => {
+                            let _ = ids(&l2);
+                            let _ = ids(&hl);
+                            if n2.notify_with_custom_event_id(EventId::new(6)).is_err() || ids(&hl) != vec![6] || ids(&l2) != vec![6] {
+                                u.push("new_notifier_not_received");
+                            }
+                            if hn.notify_with_custom_event_id(EventId::new(7)).is_err() || ids(&l2) != vec![7] || ids(&hl) != vec![7] {
+                                u.push("new_listener_not_served");
+                            }
+                        }
+                        (n, l) => {
+                            say("new_peer_error", format!("{:?}/{:?}", n.err(), l.err()));
+                            u.push("new_peer_ports_refused")
+                        }
+                    },
+                    Err(e) => {
+                        say("new_peer_error", format!("{:?}", e));
+                        u.push("new_peer_open_failed")
+                    }
+                }
+                }
+                // connections to the departed new peers are released by the next connection update
+                let _ = hn.update_connections();
+                say("usability", if u.is_empty() { "ok".to_string() } else { u.join("+") });
+                say("step", "checked");
+                wait_cmd();
+            }
+            drop(hl);
+            drop(hn);
+            drop(svc);
+        }
+        "blackboard_shared" => {
+            let svc = node.service_builder(&name).blackboard_creator::<u64>().add::<u64>(1, 100).add::<[u8; 40]>(2, [7; 40]).max_nodes(4).max_readers(2).create().unwrap();
+            let hr = svc.reader_builder().create().unwrap();
+            let rh = hr.entry::<u64>(&1).unwrap();
+            say("step", "ready");
+            if wait_cmd() == "check" {
+                post_mortem(&cfg);
+                let v = *rh.get();
+                say("foreign_data", if v == 100 || v == 101 { "ok".to_string() } else { format!("corrupted:{}", v) });
+                let mut u = Vec::new();
+                {
+                let node2 = NodeBuilder::new().config(&cfg).create::<ipc::Service>().unwrap();
+                match node2.service_builder(&name).blackboard_opener::<u64>().open() {
+                    Ok(svc2) => match (svc2.writer_builder().create(), svc2.reader_builder().create()) {
+                        (Ok(w2), Ok(r2)) => match (w2.entry::<u64>(&1), r2.entry::<u64>(&1)) {
+                            (Ok(wh), Ok(rh2)) => {
+                                wh.update_with_copy(333);
+                                if *rh.get() != 333 || *rh2.get() != 333 {
+                                    u.push("new_writer_not_seen");
+                                }
+                            }
+                            (a, b) => {
+                                say("new_peer_error", format!("{:?}/{:?}", a.err(), b.err()));
+                                u.push("new_entry_handles_refused")
+                            }
+                        },
+                        (w, r) => {
+                            say("new_peer_error", format!("{:?}/{:?}", w.err(), r.err()));
+                            u.push("new_peer_ports_refused")
+                        }
+                    },
+                    Err(e) => {
+                        say("new_peer_error", format!("{:?}", e));
+                        u.push("new_peer_open_failed")
+                    }
+                }
+                }
+                // connections to the departed new peers are released by the next connection update
+                say("usability", if u.is_empty() { "ok".to_string() } else { u.join("+") });
+                say("step", "checked");
+                wait_cmd();
+            }
+            drop(rh);
+            drop(hr);
+            drop(svc);
+        }
+        _ => panic!("unknown holder scenario"),
+    }
+    drop(node);
+    say("step", "exited");
 }
